@@ -45,13 +45,14 @@ fn parse_stored(src: &[u8], n: usize, dst: &mut [u8]) -> Option<(usize, bool, us
     None
 }
 
-fn stored_one_call<const N: usize, const OUT: usize, const KMAX: usize>() {
+fn stored_one_call<const N: usize, const OUT: usize, const KMAX: usize, const LB: usize, const PEND: usize, const SYM: usize>() {
     let mut w = [0u8; 2 << WB0];
     let mut p = [0u16; 1 << WB0];
     let mut h = [0u16; HASH_SIZE];
-    let mut pe = [MaybeUninit::new(0u8); 4 * LB0];
-    let mut sy = [0u8; 3 * LB0];
-    let mut state = typed_state(&mut w, &mut p, &mut h, &mut pe, &mut sy, WB0, LB0, 0, 0, Strategy::Default);
+    let mut pe = [MaybeUninit::new(0u8); PEND];
+    let mut sy = [0u8; SYM];
+    assert!(PEND == 4 * LB && SYM == 3 * LB);
+    let mut state = typed_state(&mut w, &mut p, &mut h, &mut pe, &mut sy, WB0, LB, 0, 0, Strategy::Default);
     state.status = Status::Busy;
     state.window_size = 2 << WB0;
     state.last_flush = -2;
@@ -123,6 +124,8 @@ fn stored_one_call<const N: usize, const OUT: usize, const KMAX: usize>() {
         }
         BlockState::FinishStarted => {
             assert!(matches!(flush, DeflateFlush::Finish) && consumed == n as usize && stream.avail_out == 0);
+            // the final block has been declared: nothing supplied so far may still be waiting in the window
+            assert!(in_window == 0, "final block emitted while input is still buffered: the tail would be lost");
         }
         BlockState::BlockDone => {
             // flush point: all input so far is decodable from the output (C11)
@@ -135,9 +138,10 @@ fn stored_one_call<const N: usize, const OUT: usize, const KMAX: usize>() {
             assert!(back[j] == expect_at(j));
         }
         BlockState::NeedMore => {
-            // within these bounds everything fits the window and the pending buffer, so a Finish call always at least
-            // starts the final block (progress: repeated Finish calls terminate)
-            assert!(!matches!(flush, DeflateFlush::Finish), "Finish made no progress towards the end of the stream");
+            // progress: a Finish call may only ask for more output space while there still is something to emit
+            // (unconsumed input, or input buffered in the window); otherwise repeated Finish calls would never end
+            assert!(!matches!(flush, DeflateFlush::Finish) || stream.avail_in > 0 || in_window > 0,
+                "Finish made no progress towards the end of the stream");
         }
     }
     kani::cover!(matches!(bs, BlockState::FinishDone) && n as usize == N);
@@ -154,7 +158,7 @@ fn stored_one_call<const N: usize, const OUT: usize, const KMAX: usize>() {
 #[kani::stub(core::panicking::panic_nounwind, stub_pn)]
 #[kani::stub(core::panicking::panic_nounwind_fmt, stub_pnf)]
 fn kd6_stored_one_call() {
-    stored_one_call::<6, 26, 0>();
+    stored_one_call::<6, 26, 0, 16, 64, 48>();
 }
 
 /// the same call from the state an earlier Z_NO_FLUSH call leaves behind (0..=3 bytes buffered in the window):
@@ -165,5 +169,16 @@ fn kd6_stored_one_call() {
 #[kani::stub(core::panicking::panic_nounwind, stub_pn)]
 #[kani::stub(core::panicking::panic_nounwind_fmt, stub_pnf)]
 fn kd6_stored_resume() {
-    stored_one_call::<3, 20, 3>();
+    stored_one_call::<3, 20, 3, 16, 64, 48>();
+}
+
+/// pending buffer of 8 bytes (room for a 3-byte stored block): buffered input no longer fits one block, so the data
+/// leaves through several small blocks and only the last of them may carry BFINAL (C01, C05)
+#[kani::proof]
+#[kani::unwind(10)]
+#[kani::stub(core::fmt::write, stub_fmt_write)]
+#[kani::stub(core::panicking::panic_nounwind, stub_pn)]
+#[kani::stub(core::panicking::panic_nounwind_fmt, stub_pnf)]
+fn kd6_stored_tiny_pending() {
+    stored_one_call::<2, 20, 4, 2, 8, 6>();
 }
